@@ -482,6 +482,25 @@ func c10Generate(c *mon.Ctx) {
 		}
 	}
 
+	// histories whose element variables start from points that share a line of small slope (x+y, x-y, 2x+y, ... equal for two
+	// different points): what a comparison folded into one linear combination of the coordinates cannot tell apart
+	slopes := []*big.Int{big.NewInt(1), oracle.FNeg(big.NewInt(1)), big.NewInt(2), oracle.FNeg(big.NewInt(2)), new(big.Int)}
+	for i := 0; i < c.N(24, 400); i++ {
+		cs := c10GenHistory(mr, pool, 20)
+		pv := gen.Fresh(mr)
+		cs.InitE[0] = mon.MkElemCase(pv, gen.DrawRepr(mr, false))
+		j := 1
+
+		for _, m := range slopes {
+			if q, ok := gen.SameLine(pv.P, m); ok && j < c10NE {
+				cs.InitE[j] = mon.MkElemCase(gen.PV{P: q, Tag: "same-line"}, gen.DrawRepr(mr, false))
+				j++
+			}
+		}
+
+		c.Structured(func() any { return cs })
+	}
+
 	// histories whose scalar variables start from every Montgomery-structured value (stored limbs small, single limb, adjacent
 	// to one, ...) and in which a third of the steps are scalar operations with those variables as operands (Pow in particular)
 	ms := gen.MontStructured(oracle.N)
